@@ -47,6 +47,18 @@ def _es(E):
     return _obj(E, "ESab", lambda: E.ift.MultiLinearEinsum({"a": E.S, "b": E.S}, "i,i->i"))
 
 
+def _vc_dtypes(E, inp):
+    """VariableCovarianceGaussianEnergy: residual has the sampling dtype, inverse covariance is real"""
+    if E.cplx:
+        if not np.iscomplexobj(inp["a"]) or np.iscomplexobj(inp["b"]):
+            raise X.Outside("VariableCovarianceGaussianEnergy(complex) needs complex residual and real inverse covariance")
+        _real_only(E, {"a": inp["b"], "b": inp["b"]}, pos=("b",))
+        if np.abs(inp["a"]).max() > 12.:
+            raise X.Outside("argument too large")
+    else:
+        _real_only(E, inp, pos=("b",))
+
+
 def _real_only(E, inp, pos=()):
     for k in ("a", "b"):
         if np.iscomplexobj(inp[k]):
@@ -88,7 +100,7 @@ def _vcref(E, xp, r, i):
 
 
 X.XLEAVES["VCab"] = X.XLeaf("VCab", "ab", "E", _vc, lambda E, xp, inp: _vcref(E, xp, inp["a"], inp["b"]),
-                            lambda E, inp: _real_only(E, inp, pos=("b",)), _vc_leaf_metric)
+                            _vc_dtypes, _vc_leaf_metric)
 X.XLEAVES["JXab"] = X.XLeaf("JXab", "ab", "S", _jx, lambda E, xp, inp: inp["a"] * xp.exp(inp["b"]) + inp["b"],
                             lambda E, inp: X.ptw_guard("exp", inp["b"]))
 X.XLEAVES["JLab"] = X.XLeaf("JLab", "ab", "E", _jl,
@@ -99,7 +111,7 @@ X.XLEAVES["ESab"] = X.XLeaf("ESab", "ab", "S", _es, lambda E, xp, inp: inp["a"] 
 
 # ---- partial insertion: an operator on {a, b} fed with a sub-expression on key a only (b stays an input)
 def _pins_vc_guard(E, inp, v):
-    _real_only(E, {"a": v, "b": inp["b"]}, pos=("b",))
+    _vc_dtypes(E, {"a": v, "b": inp["b"]})
 
 
 def _pins_vc_metric(E, root, path, inp, keys, cplx):
